@@ -112,6 +112,11 @@ def generate(rng, tier):
             if L <= 8 or tier == "thorough":
                 cases.append("C07 filer %s 0 %s" % (hx(body), rt))
                 cases.append("C07 filep %s 0 %s" % (hx(body), rt))
+            if L <= 6:
+                # the application looks at `response.data` (a logging or validating after hook) before it is sent
+                for kind in ("filebk", "filerk", "filepk"):
+                    cases.append("C07 %s %s 0 %s" % (kind, hx(body), rt))
+                cases.append("C07 filebk %s 2 %s" % (hx(body_of(2, 1) + body), rt))
             # offsets > 0: the representation is the tail of a longer file
             for off in (1, 3):
                 cases.append("C07 fileb %s %d %s" % (hx(body_of(off, 1) + body), off, rt))
@@ -211,6 +216,9 @@ def generate(rng, tier):
 
 def to_model(case):
     t = case.split()
+    if t[1] in ("filebk", "filerk", "filepk"):       # looking at the data does not change the answer
+        t[1] = t[1][:-1]
+        return to_model(" ".join(t))
     if t[1] == "json":
         return ["C07 buf %s %s" % (t[2], t[3])]
     if t[1] in ("bufs", "bufu", "bufl"):
@@ -362,8 +370,13 @@ def observe_full(case):
             res.make_partial(ranges, t[2])
         calls, out = run_response(res)
         return calls, out, rep, ranges
+    peek = t[1] in ("filebk", "filerk", "filepk")
+    if peek:
+        case = " ".join([t[0], t[1][:-1]] + t[2:])
     res, rep, ranges = build(case)
     res.make_partial(ranges)
+    if peek:
+        res.data            # noqa: B018  (reads the file to its end)
     calls, out = run_response(res)
     return calls, out, rep, ranges
 
